@@ -28,14 +28,14 @@ def cx0 : PCtx := { ci := { isalnum := isAsciiAlnum, uname := fun _ => "unknown"
 
 /-- `{}` ↔ `Element()` and `false` ↔ `Nothing()`: the base cases of the round trip -/
 theorem trivial_round_trip :
-    (match serElem [] (parseE cx0 Schema.empty), serElem [] (parseE cx0 (.bool false)) with
+    (match serElem none [] (parseE cx0 Schema.empty), serElem none [] (parseE cx0 (.bool false)) with
      | .obj [], .bool false => true
      | _, _ => false) = true := by decide +kernel
 
 /-- a schema in normal form and its round trip, evaluated in the kernel:
     `{"type":"array","items":{"type":"integer","minimum":1},"uniqueItems":true}` -/
 theorem example_fixpoint :
-    (match serElem [] (parseE cx0 (.mk { type := .single "array", itemsKind := .single, uniqueItems := some true }
+    (match serElem none [] (parseE cx0 (.mk { type := .single "array", itemsKind := .single, uniqueItems := some true }
         [Schema.leaf { type := .single "integer", minimum := some (.int 1) }] none none [] [] none none [] [] [] [] none)) with
      | .obj [("items", .obj [("minimum", .num (.int 1)), ("type", .str "integer")]), ("uniqueItems", .bool true),
              ("type", .str "array")] => true
